@@ -16,3 +16,6 @@ def check(ctx):
     cursor.analyze(ctx, RULES | {"C09.a", "C10.b", "C10.a"})
     from . import panics
     panics.analyze(ctx, {"C07.d", "C07.e"})
+    from .common import cache_foundation, language_foundation
+    language_foundation(ctx)
+    cache_foundation(ctx)
